@@ -3,6 +3,8 @@ import WorkflowModel.Model.RunState
 import WorkflowModel.Model.Graph
 import WorkflowModel.Model.Engine
 import WorkflowModel.Model.Adapters.RefStore
+import WorkflowModel.Model.Adapters.RefStream
+import WorkflowModel.Model.Adapters.RefTimeouts
 /-! Line-protocol driver for the correspondence check (T3). One command per input line, one answer per
 output line. Core-only imports, so it links as `lean_exe wfdriver`. Unknown commands answer `bad-op`
 (never a default). -/
@@ -231,8 +233,48 @@ def step (s : Store) (args : List String) : Option (Store × String) :=
 
 end RsDrv
 
+namespace StDrv
+open WorkflowModel.RefStream
+
+def step (s : Stream) (args : List String) : Option (Stream × String) :=
+  match args with
+  | ["reset"] => some ({}, "ok")
+  | ["send", t, p] => do some (s.send (← t.toNat?) (← p.toNat?), "ok")
+  | ["new", n, fl] => do some (s.newReceiver (← n.toNat?) (fl == "1"), "ok")
+  | ["recv", n, t] => do
+    let (s', d) := s.recv (← n.toNat?) (← t.toNat?)
+    some (s', match d with | none => "block" | some (i, p) => s!"{i}:{p}")
+  | ["ack", n, i] => do some (s.ack (← n.toNat?) (← i.toNat?), "ok")
+  | _ => none
+
+end StDrv
+
+namespace TsDrv
+open WorkflowModel.RefTimeouts
+
+def tStr (t : T) : String := s!"{t.id}:{t.wf}:{t.fid}:{t.rid}:{t.status}:{t.expire}"
+def lst (l : List T) : String := if l.isEmpty then "-" else ",".intercalate (l.map tStr)
+
+def step (s : TStore) (args : List String) : Option (TStore × String) :=
+  match args with
+  | ["reset"] => some ({}, "ok")
+  | ["create", wf, fid, rid, st, ex] => do some (s.create (← wf.toNat?) (← fid.toNat?) (← rid.toNat?) (← st.toInt?) (← ex.toInt?), "ok")
+  | ["complete", id] => do some (s.complete (← id.toNat?), "ok")
+  | ["cancel", id] => do some (s.cancel (← id.toNat?), "ok")
+  | ["valid", wf, st, now] => do
+    let w ← wf.toNat?; let t ← st.toInt?; let n ← now.toInt?
+    some (s, s!"{lst (s.listValid w t n false)}|{lst (s.listValid w t n true)}")
+  | _ => none
+
+end TsDrv
+
+structure Aux where
+  rs : WorkflowModel.RefStore.Store := {}
+  st : WorkflowModel.RefStream.Stream := {}
+  ts : WorkflowModel.RefTimeouts.TStore := {}
+
 partial def loop (h : IO.FS.Stream) (out : IO.FS.Stream) (cfg : WorkflowModel.Engine.Cfg) (sys : WorkflowModel.Engine.Sys)
-    (rs : WorkflowModel.RefStore.Store := {}) : IO Unit := do
+    (rs : Aux := {}) : IO Unit := do
   let line ← h.getLine
   if line.isEmpty then return ()
   let args := (line.trimAscii.toString.splitOn " ").filter (· ≠ "")
@@ -248,8 +290,16 @@ partial def loop (h : IO.FS.Stream) (out : IO.FS.Stream) (cfg : WorkflowModel.En
       out.putStrLn ans; out.flush; loop h out cfg sys' rs
     | none => out.putStrLn "bad-op"; out.flush; loop h out cfg sys rs
   | "rs" :: rest =>
-    match RsDrv.step rs rest with
-    | some (rs', ans) => out.putStrLn ans; out.flush; loop h out cfg sys rs'
+    match RsDrv.step rs.rs rest with
+    | some (rs', ans) => out.putStrLn ans; out.flush; loop h out cfg sys { rs with rs := rs' }
+    | none => out.putStrLn "bad-op"; out.flush; loop h out cfg sys rs
+  | "st" :: rest =>
+    match StDrv.step rs.st rest with
+    | some (st', ans) => out.putStrLn ans; out.flush; loop h out cfg sys { rs with st := st' }
+    | none => out.putStrLn "bad-op"; out.flush; loop h out cfg sys rs
+  | "ts" :: rest =>
+    match TsDrv.step rs.ts rest with
+    | some (ts', ans) => out.putStrLn ans; out.flush; loop h out cfg sys { rs with ts := ts' }
     | none => out.putStrLn "bad-op"; out.flush; loop h out cfg sys rs
   | _ =>
     let ans := match Drv.pure args with
